@@ -64,6 +64,11 @@ def generate(unit, repo='/repo', import_mode=False, strip_body=(), extra_consts=
             if renames:
                 G = [[X.Tok(renames.get(str(t), str(t))) for t in run] for run in G]
                 E = [X.Tok(renames.get(str(t), str(t))) for t in E]
+        normalized_by = []
+        if not exact and not import_mode:
+            # restructured control flow: sound syntactic rewrites (R30-R33) of the CURRENT code towards the snapshot's shape
+            cur, normalized_by = X.directed_normalize(cur, E)
+            if normalized_by: exact = X.strs(E) == X.strs(cur) and False
         toks, n_edits, edits = X.rebase(E, G, cur)
         stripped = False
         if path in strip_body:
@@ -76,7 +81,7 @@ def generate(unit, repo='/repo', import_mode=False, strip_body=(), extra_consts=
         text, origin = X.emit_with_lines(toks)
         if stripped: text = '#[verifier::exec_allows_no_decreases_clause] ' + text
         g.report.append({'fn': path, 'file': rel, 'line': rts[0].line, 'real_tokens': len(cur), 'overlay_tokens': len(ots),
-                         'ghost_tokens': sum(len(r) for r in G), 'erasure_exact': exact, 'edits': edits, 'renames': renames, 'body_ghost_stripped': stripped, 'dropped_arithmetic': dropped,
+                         'ghost_tokens': sum(len(r) for r in G), 'erasure_exact': exact, 'edits': edits, 'renames': renames, 'body_ghost_stripped': stripped, 'dropped_arithmetic': dropped, 'normalized_by': normalized_by,
                          'snapshot_sha': hashlib.sha1(' '.join(X.strs(E)).encode()).hexdigest()[:12]})
         pieces.append((os_, oe, text, origin, path, rel))
     g.opaque = []
@@ -400,7 +405,7 @@ def run_unit(unit, repo='/repo', canary=True, keep=False, rlimit=None, workdir=N
         r['changed'] = bool(r['edits'])
         if r.get('dropped_arithmetic'):      # none on the pinned tree (measured): any occurrence comes from changed code
             res['problems'].append({'kind': 'dropped-expression', 'fn': r['fn'], 'detail': 'the rewrite table drops an expression with arithmetic (e.g. a format argument) - not checked: %s' % '; '.join(r['dropped_arithmetic'][:3])})
-    key = hashlib.sha1((g.text + '|canary=%s|rlimit=%s|%s' % (canary, rlimit or unit.get('rlimit'), TOOLS_SHA)).encode()).hexdigest()
+    key = hashlib.sha1((g.text + '|canary=%s|rlimit=%s|%s|%s' % (canary, rlimit or unit.get('rlimit'), TOOLS_SHA, json.dumps(res['problems'], sort_keys=True))).encode()).hexdigest()   # generate-time problems are not visible in the text (a dropped format argument): part of the key
     cdir = os.path.join(ROOT, '.cache'); cpath_ = os.path.join(cdir, '%s_%s.json' % (unit['name'], key))
     if os.environ.get('VX_NO_CACHE') != '1' and os.path.exists(cpath_) and not keep:
         try:
